@@ -1,0 +1,71 @@
+//! Verification hooks. Compiled only with `--cfg geodesy_verif`; with the
+//! guard off, nothing in this module (or its call sites) exists.
+//!
+//! A process-wide event sink: every hook appends one `Event` while holding
+//! the sink mutex, and takes its sequence number under that same mutex, so
+//! that the order of events is the order in which they were emitted.
+//! Recording is off until `enable(true)` is called.
+
+use std::sync::atomic::{AtomicBool, Ordering};
+use std::sync::Mutex;
+
+#[derive(Debug, Clone)]
+pub struct Event {
+    pub seq: u64,
+    pub thread: String,
+    pub kind: &'static str,
+    pub fields: Vec<(&'static str, String)>,
+}
+
+static ENABLED: AtomicBool = AtomicBool::new(false);
+static SINK: Mutex<(u64, Vec<Event>)> = Mutex::new((0, Vec::new()));
+
+pub fn enable(on: bool) {
+    ENABLED.store(on, Ordering::SeqCst);
+}
+
+pub fn enabled() -> bool {
+    ENABLED.load(Ordering::Relaxed)
+}
+
+pub fn emit(kind: &'static str, fields: Vec<(&'static str, String)>) {
+    if !enabled() {
+        return;
+    }
+    let thread = format!("{:?}", std::thread::current().id());
+    let mut sink = match SINK.lock() {
+        Ok(s) => s,
+        Err(p) => p.into_inner(),
+    };
+    sink.0 += 1;
+    let seq = sink.0;
+    sink.1.push(Event {
+        seq,
+        thread,
+        kind,
+        fields,
+    });
+}
+
+pub fn drain() -> Vec<Event> {
+    let mut sink = match SINK.lock() {
+        Ok(s) => s,
+        Err(p) => p.into_inner(),
+    };
+    std::mem::take(&mut sink.1)
+}
+
+/// Names of the built-in operators, in table order
+pub fn builtin_names() -> Vec<&'static str> {
+    crate::inner_op::verif_builtin_names()
+}
+
+/// Names in the built-in ellipsoid table, in table order
+pub fn ellipsoid_names() -> Vec<&'static str> {
+    crate::ellipsoid::verif_ellipsoid_names()
+}
+
+/// (name, multiplier) of the linear and angular unit tables, in table order
+pub fn unit_table() -> Vec<(&'static str, f64)> {
+    crate::inner_op::verif_unit_table()
+}
